@@ -55,6 +55,9 @@ def run(db, rep, tier):
     r2(db, rep)
     r3(db, rep)
     r3_legacy(db, rep)
+    rep.rule("R6-legacy-order", "legacy drain loop: a fragment that is sliced and re-inserted at the current position is in the map before the "
+                                "loop iterator is advanced past the erased entry; the sequence helpers are plain modulo-2^32 arithmetic", 3)
+    r6_legacy(db, rep)
     r4(db, rep)
     r5(db, rep)
     rep.explanation = ("Also: (R4) DataTracker::sequence_number(x) is called from Flow only under state_ == UNKNOWN - a retransmitted SYN "
@@ -662,3 +665,67 @@ def r3_legacy(db, rep):
                 rep.ok("R3-wrap", key, facts.loc(f, loop), "cyclic walk from %s(): %d advances, all wrap-protected" % (src, nadv))
     if n < 1:
         rep.analysis_broken("TCPStream::generic_process: cyclic drain loop not recognised")
+
+
+def r6_legacy(db, rep):
+    from vlib import ieval
+    fs = db.fns_named("Tins::TCPStream::generic_process")
+    if not fs:
+        rep.analysis_broken("TCPStream::generic_process vanished")
+        return
+    f = fs[0]
+    g = cfg.FnCFG(f)
+    idx, par = facts.index_fn(f)
+    n = 0
+    for x in facts.fn_nodes(f):
+        if x["k"] == "CXXMemberCallExpr" and x.get("cname") == "safe_insert":
+            # inside a loop?  then the iterator advance of the same block must come after it
+            p = par.get(x["id"])
+            blk = None
+            inloop = False
+            while p is not None:
+                if p["k"] == "CompoundStmt" and blk is None:
+                    blk = p
+                if p["k"] in ("WhileStmt", "ForStmt", "DoStmt"):
+                    inloop = True
+                    break
+                p = par.get(p["id"])
+            if not inloop or blk is None:
+                continue
+            adv = [y for y in facts.walk(blk) if y["k"] in ("CXXOperatorCallExpr", "BinaryOperator") and
+                   (y.get("op") == "=" or y.get("cname") == "operator=") and "erase_iterator" in facts.expr_str(y["c"][-1])]
+            n += 1
+            key = "generic_process:reinsert#%d" % n
+            if not adv:
+                rep.ok("R6-legacy-order", key, facts.loc(f, x), "no iterator advance in this block")
+                continue
+            if all(g.before_on_all_paths(g.pos(x), g.pos(a)) for a in adv):
+                rep.ok("R6-legacy-order", key, facts.loc(f, x), "re-inserted before the iterator is advanced")
+            else:
+                rep.violation("R6-legacy-order", key, facts.loc(f, x),
+                              "the loop iterator is advanced past the erased entry BEFORE the sliced fragment is re-inserted at the current "
+                              "position: the walk does not see it, and bytes that are complete and in order stay undelivered")
+    if n < 1:
+        rep.analysis_broken("generic_process: re-insertion inside the drain loop not found")
+    M = 1 << 32
+    for nm, fn_ in (("add_sequence_numbers", lambda a, b: (a + b) % M), ("subtract_sequence_numbers", lambda a, b: (a - b) % M)):
+        hs = [h for fid, h in db.functions.items() if ("::" + nm + "(") in fid and h.get("body") and len(h["params"]) == 2 and h["file"] == f["file"]]
+        key = "%s:wrap" % nm
+        if not hs:
+            rep.analysis_broken("%s vanished" % nm)
+            continue
+        h = hs[0]
+        bad = None
+        try:
+            for a, b in ((5, 7), (M - 1, 1), (M - 16, 32), (0, 1), (M - 2, 1), (16, 32), (M - 1, M - 1), (0, M - 1)):
+                v = ieval.run_body(h, h["body"], {h["params"][0]["var"]: a, h["params"][1]["var"]: b})
+                if v is None or (v % M) != fn_(a, b):
+                    bad = "%s(0x%x, 0x%x) is 0x%x, modulo-2^32 arithmetic gives 0x%x" % (nm, a, b, (v or 0) % M, fn_(a, b))
+                    break
+        except ieval.Unknown as e:
+            rep.analysis_broken("%s: outside the finite evaluator: %s" % (nm, e))
+            continue
+        if bad:
+            rep.violation("R6-legacy-order", key, facts.loc(h), bad + ": segment ends computed across the wrap are off, stale data is sliced with a negative length")
+        else:
+            rep.ok("R6-legacy-order", key, facts.loc(h), "wraps modulo 2^32 on the boundary cells")
